@@ -38,13 +38,14 @@ TraceInit ==
   /\ pc = "start"
   /\ ldict = <<>> /\ lcodes = <<>> /\ labels = <<>> /\ ptr = <<>>
   /\ first = 0 /\ pieces = <<>> /\ partial = <<>> /\ todo = {} /\ combined = <<>> /\ nmerged = 0 /\ oob = FALSE
-  /\ calls = 1
+  /\ calls = 1 /\ tout = <<>>
 
 TFactorize == /\ l = 0 /\ T.out = "ok"
               /\ SumTo(klens, Len(klens)) = Len(keys) /\ Len(vals) = Len(keys)
               /\ IsPerm(T.labels, UnionOfDicts)
               /\ FactorizeWith(T.labels)
               /\ l' = 1 /\ UNCHANGED tid
+TUnifyPos == /\ l = 1 /\ UnifyForPositions /\ UNCHANGED <<tid, l>>       \* (silent: happens inside the call, before the mask is resolved)
 TResolve == /\ l = 1 /\ Resolve
             /\ (CheckInternal /\ T.internal = 1) =>
                  /\ Len(T.pieces) = Len(pieces')
@@ -70,6 +71,7 @@ TChunk == /\ l >= 2 /\ pc = "reduce"
           /\ l' = l + 1 /\ UNCHANGED tid
 TMerge == /\ pc = "merge" /\ MergePiece /\ l' = l + 1 /\ UNCHANGED tid
 
+DefCountSel(r) == IF kernel = "size" THEN Len(GroupVals(keys[r])) ELSE DefCount(GroupVals(keys[r]))
 FinalOk == /\ Len(T.final) = Len(labels)
            /\ \A g \in 1..Len(labels) :
                 LET d == Def(kernel, GroupVals(labels[g]))
@@ -79,11 +81,17 @@ FinalOk == /\ Len(T.final) = Len(labels)
 (* GroupBy.count_ikey(mask): rows selected per label (same Resolve, kernel "size") *)
 KeyCountOk == /\ Len(T.kcount) = Len(labels)
               /\ \A g \in 1..Len(labels) : T.kcount[g] = Len(GroupVals(labels[g]))
-TDone == /\ pc = "done" /\ ~oob /\ FinalOk /\ KeyCountOk
+(* transform=True (T.tout: the value shown at every row): replayed through Broadcast *)
+HasT == "tout" \in DOMAIN T
+TBroadcast == /\ HasT /\ pc = "done" /\ tout = <<>> /\ Broadcast /\ l' = l + 1 /\ UNCHANGED tid
+ToutOk == HasT => /\ Len(T.tout) = Len(keys) /\ (Len(keys) = 0 \/ tout # <<>>)
+                  /\ \A r \in 1..Len(keys) :      \* (dtypes without an in-band null: only rows whose group saw a value are judged)
+                        (T.nonull = 0 \/ SumLike(kernel) \/ (keys[r] # Null /\ DefCountSel(r) > 0)) => T.tout[r] = tout[r]
+TDone == /\ pc = "done" /\ ~oob /\ (Len(T.final) > 0 \/ ~HasT => FinalOk) /\ KeyCountOk /\ ToutOk
          /\ PrintT(<<"ACCEPT", tid>>)
          /\ pc' = "accepted" /\ l' = l + 1
          /\ UNCHANGED <<tid, hvars, gvars, first, pieces, partial, todo, combined, nmerged, oob>>
 
-TraceNext == TFactorize \/ TResolve \/ TChunk \/ TMerge \/ TDone
+TraceNext == TFactorize \/ TUnifyPos \/ TResolve \/ TChunk \/ TMerge \/ TBroadcast \/ TDone
 TraceSpec == TraceInit /\ [][TraceNext]_<<vars, tid, l>>
 =============================================================================
